@@ -33,9 +33,10 @@ class RandnProbe:
     """Replaces torch.randn: every call is recorded; call number c returns the one-hot tensor whose flat position is `hot - offset(c)`
     (zeros otherwise), so that running the sampler once per `hot` recovers its Jacobian column by column."""
 
-    def __init__(self, hot=None, real=False):
+    def __init__(self, hot=None, real=False, base_seed=None):
         self.hot = hot
         self.real = real
+        self.base_seed = base_seed      # not None: every call returns a fixed Gaussian base tensor (plus the one-hot entry)
         self.calls = []
         self.orig = torch.randn
 
@@ -49,11 +50,14 @@ class RandnProbe:
                 self.calls.append(int(math.prod(size)))
                 return self.orig(*size, **kw) if out is None else self.orig(*size, out=out, **kw)
             z = torch.zeros(*size, dtype=kw.get("dtype") or torch.get_default_dtype(), device=kw.get("device"))
+            if self.base_seed is not None:
+                g = torch.Generator().manual_seed(self.base_seed + len(self.calls))
+                z = self.orig(*size, generator=g, dtype=torch.float64).to(z.dtype)
             n = z.numel()
             off = sum(c for c in self.calls)
             self.calls.append(n)
             if self.hot is not None and off <= self.hot < off + n:
-                z.view(-1)[self.hot - off] = 1.0
+                z.view(-1)[self.hot - off] += 1.0
             if out is not None:
                 out.copy_(z)
                 return out
@@ -66,8 +70,10 @@ class RandnProbe:
         torch.randn = self.orig
 
 
-def sampling_jacobian(draw):
-    """draw() -> tensor of samples. Returns (J, out_shape) with J of shape (out.numel(), total noise numel)."""
+def sampling_jacobian(draw, affine_base=None):
+    """draw() -> tensor of samples. Returns (J, out_shape) with J of shape (out.numel(), total noise numel).
+    affine_base: seed of a fixed Gaussian base noise z0; column j is then draw(z0 + e_j) - draw(z0).  Needed for samplers that also use
+    the noise to start an eigenvalue estimate (contour-integral quadrature): a one-hot or zero noise tensor would starve that estimate."""
     # a first real draw lets the sampler compute (and cache) whatever decomposition it needs with genuine random start
     # vectors; the second, recorded, draw then only consumes the noise itself
     with RandnProbe(None, real=True):
@@ -76,16 +82,23 @@ def sampling_jacobian(draw):
         out0 = draw()
     total = sum(p.calls)
     cols = []
+    if affine_base is not None:
+        with RandnProbe(None, base_seed=affine_base):
+            f0 = draw().detach().reshape(-1).to(torch.float64)
     for j in range(total):
-        with RandnProbe(j):
-            cols.append(draw().detach().reshape(-1).to(torch.float64))
+        with RandnProbe(j, base_seed=affine_base):
+            cj = draw().detach().reshape(-1).to(torch.float64)
+        cols.append(cj if affine_base is None else cj - f0)
     J = torch.stack(cols, dim=1) if cols else torch.zeros(out0.numel(), 0, dtype=torch.float64)
     return J, tuple(out0.shape)
 
 
-def sampling_covariance_check(draw, A, k, dtype, kind="direct"):
+def sampling_covariance_check(draw, A, k, dtype, kind="direct", affine_base=None):
     """A: exact dense covariance (*batch, n, n) float64. Returns None or a message."""
-    J, shape = sampling_jacobian(draw)
+    J, shape = sampling_jacobian(draw, affine_base)
+    if J.shape[1] == 0:
+        # the sampler did not draw its noise through torch.randn: its Jacobian cannot be observed by this device (not judged)
+        return None
     batch = tuple(A.shape[:-2])
     n = A.shape[-1]
     want = (k,) + batch + (n,)
